@@ -17,6 +17,7 @@ type entry struct {
 }
 
 var registry = map[string]entry{
+	"C01": {"model_checking", checks.C01},
 	"C08": {"model_checking", checks.C08},
 	"C09": {"model_checking", checks.C09},
 }
